@@ -137,6 +137,9 @@ def run(prog, rep):
                 const_zero = True
             elif isinstance(t, Raw) and isinstance(t.value, ast.Constant) and isinstance(t.value.value, bytes) and set(t.value.value) <= {0}:
                 const_zero = True
+            elif isinstance(t, Raw) and isinstance(t.value, ast.Call) and norm(t.value.func) in ("bytes", "bytearray") and len(t.value.args) == 1 \
+                    and prog.const_int(f.module, t.value.args[0]) is not None:
+                const_zero = True      # bytes(N) is N zero bytes
             elif isinstance(t, Raw) and isinstance(t.value, ast.BinOp) and isinstance(t.value.op, ast.Mult) and any(
                     isinstance(x, ast.Constant) and isinstance(x.value, bytes) and set(x.value) <= {0} for x in (t.value.left, t.value.right)):
                 const_zero = True
